@@ -170,8 +170,10 @@ LoadAt(sch, shape, ps, pre, d) ==
                 unknown == KeysOf(d) \ CK
                 extraErr == IF sch.extra_in.p = "forbid" /\ unknown # {} THEN {Err(pre, "ExtraFields", unknown)} ELSE {}
                 \* "collected unknown fields will have original names": unknown keys of this node, and under the key of every
-                \* nested dict node the unknown data collected there (left out when empty)
-                nested == {k \in present : FieldAt(ps, Append(pre, k)) = {} /\ sub[k].extra.ks # <<>>}
+                \* nested dict node the unknown data collected there - the collected mapping MIRRORS the nested nodes, a node
+                \* without unknown keys contributes an empty mapping (the documentation is silent; the repository's own
+                \* test_structure_flattening pins it: extra = {"z": {}, ...})
+                nested == {k \in present : FieldAt(ps, Append(pre, k)) = {}}
                 xkeys == SetToSeqK(unknown \cup nested)
                 extra == Dict(xkeys, [m \in 1..Len(xkeys) |-> IF xkeys[m] \in unknown THEN Get(d, xkeys[m]) ELSE sub[xkeys[m]].extra])
             IN [errs |-> (IF missing # {} THEN {Err(pre, "NoRequiredFields", missing)} ELSE {}) \cup extraErr
